@@ -443,6 +443,18 @@ func c04Long(r *mon.Run) {
 			}
 		}
 	}
+	// long literals (whatever puts off decoding a literal "because it is big" puts off finding out that it is no JSON): valid and
+	// broken at the start, in the middle, at the end, 100 bytes to 100 KB
+	for _, n := range []int{100, 1000, 1023, 1024, 1025, 2000, 4096, 10000, 100000} {
+		elems := strings.Repeat("1234567, ", n/9)
+		long := "[" + elems + "0]"
+		str := "\"" + strings.Repeat("x", n) + "\""
+		for k, body := range []string{long, "[" + elems + "]", "[" + elems + "0", long + "]", "[," + elems + "0]", "[" + elems[:len(elems)/2] + "oops, " + elems[len(elems)/2:] + "0]", str, str[:len(str)-1], str + "x", "{\"k\": " + long + ", \"j\": }", "{\"k\": " + long + "}", long + " " + long} {
+			ok := json.Valid([]byte(body))
+			lit := "`" + body + "`"
+			lxs = append(lxs, lx{lit, ok, fmt.Sprintf("a literal of %d bytes (variant %d)", len(body), k)}, lx{"a[?b == " + lit + "]", ok, fmt.Sprintf("a literal of %d bytes in a filter (variant %d)", len(body), k)})
+		}
+	}
 	// every built-in function name (and near misses) with every argument shape the grammar allows: the grammar knows
 	// no function names, arities or argument kinds - sort_by(a, b) is a sentence like f(a, b)
 	fnNames := append(ref.FunctionNames(), "f", "sort", "sortby", "Sort_by", "max_", "to", "not", "null", "true")
